@@ -53,7 +53,7 @@ func replayC34(c *C, in replayIn) {
 	case "linked":
 		fd, err := protoregistry.GlobalFiles.FindFileByPath(in.Path)
 		if err != nil {
-			c.Check(false, "replay: linked file not found: "+in.Path, in, "")
+			chk(c, false, "replay: linked file not found: "+in.Path, in, "")
 			return
 		}
 		checkLinkedC34(c, fd)
@@ -63,7 +63,7 @@ func replayC34(c *C, in replayIn) {
 			dp := fdpOfHex(d)
 			dfd, err, pn := newFile(dp, depResolver{reg}, false)
 			if err != nil || pn != nil {
-				c.Check(false, "replay: dependency does not build: "+errClass(err, pn), in, "")
+				chk(c, false, "replay: dependency does not build: "+errClass(err, pn), in, "")
 				return
 			}
 			reg.RegisterFile(dfd)
@@ -85,13 +85,13 @@ func checkLinkedC34(c *C, fd protoreflect.FileDescriptor) {
 	if raw := rawDescriptorOf(fd); raw != nil {
 		pr := &descriptorpb.FileDescriptorProto{}
 		if err := proto.Unmarshal(raw, pr); err != nil {
-			c.Check(false, "embedded raw descriptor does not parse: "+err.Error(), in, "")
+			chk(c, false, "embedded raw descriptor does not parse: "+err.Error(), in, "")
 		} else {
 			if fd.Path() == "internal/testprotos/irregular/test.proto" {
 				// deliberately irregular fixture: the hand-written IrregularMessage reports a descriptor from another package
 				c.Hist("A:raw-exempt(irregular fixture)")
 			} else {
-				c.Check(proto.Equal(p1, pr), "ToFileDescriptorProto(fd) differs from the embedded raw descriptor of "+fd.Path()+": "+protoDiff(pr, p1), in, "")
+				chk(c, proto.Equal(p1, pr), "ToFileDescriptorProto(fd) differs from the embedded raw descriptor of "+fd.Path()+": "+protoDiff(pr, p1), in, "")
 				c.Hist("A:raw-compared")
 			}
 		}
@@ -107,18 +107,18 @@ func checkLinkedC34(c *C, fd protoreflect.FileDescriptor) {
 		}
 	}
 	fd2, err, pn := newFile(p1, protoregistry.GlobalFiles, unresolvable)
-	if !c.Check(err == nil && pn == nil, "NewFile(ToFileDescriptorProto(fd)) fails for linked file "+fd.Path()+": "+errClass(err, pn), in, "") {
+	if !chk(c, err == nil && pn == nil, "NewFile(ToFileDescriptorProto(fd)) fails for linked file "+fd.Path()+": "+errClass(err, pn), in, "") {
 		return
 	}
 	p2 := protodesc.ToFileDescriptorProto(fd2)
-	c.Check(proto.Equal(p1, p2), "ToProto(NewFile(ToProto(fd))) != ToProto(fd) for "+fd.Path()+": "+protoDiff(p1, p2), in, "")
+	chk(c, proto.Equal(p1, p2), "ToProto(NewFile(ToProto(fd))) != ToProto(fd) for "+fd.Path()+": "+protoDiff(p1, p2), in, "")
 	if unresolvable {
 		c.Hist("A:import-not-linked(proto round trip only)")
 		return
 	}
 	s1, s2 := snapshotFile(fd), snapshotFile(fd2)
 	if s1 != s2 {
-		c.Check(false, "accessor snapshot of NewFile(ToProto(fd)) differs from fd ("+fd.Path()+"): "+firstDiff(s1, s2), in, classifySnapshots(p1, s1, s2))
+		chk(c, false, "accessor snapshot of NewFile(ToProto(fd)) differs from fd ("+fd.Path()+"): "+firstDiff(s1, s2), in, classifySnapshots(p1, s1, s2))
 	}
 	c.Hist(fmt.Sprintf("A:snapshot-lines<=10^%d", len(fmt.Sprint(strings.Count(s1, "\n")))))
 }
@@ -270,7 +270,7 @@ func checkProtoC34(c *C, p *descriptorpb.FileDescriptorProto, deps []string, reg
 	c.Hist("B:syntax=" + p.GetSyntax() + fmt.Sprint(p.GetEdition()))
 	r := depResolver{reg}
 	fd, err, pn := newFile(p, r, false)
-	if !c.Check(err == nil && pn == nil, "NewFile rejects a valid generated schema: "+errClass(err, pn), in, "") {
+	if !chk(c, err == nil && pn == nil, "NewFile rejects a valid generated schema: "+errClass(err, pn), in, "") {
 		return
 	}
 	p1 := protodesc.ToFileDescriptorProto(fd)
@@ -284,17 +284,17 @@ func checkProtoC34(c *C, p *descriptorpb.FileDescriptorProto, deps []string, reg
 	}
 	want := normalizeFDP(p, isEnum)
 	if !proto.Equal(p1, want) {
-		c.Check(false, "ToProto(NewFile(p)) != normalize(p): "+protoDiff(want, p1), in, classifyProtoDiff(p, protoDiff(want, p1)))
+		chk(c, false, "ToProto(NewFile(p)) != normalize(p): "+protoDiff(want, p1), in, classifyProtoDiff(p, protoDiff(want, p1)))
 	}
 	fd2, err, pn := newFile(p1, r, false)
-	if !c.Check(err == nil && pn == nil, "NewFile(ToProto(NewFile(p))) fails: "+errClass(err, pn), in, "") {
+	if !chk(c, err == nil && pn == nil, "NewFile(ToProto(NewFile(p))) fails: "+errClass(err, pn), in, "") {
 		return
 	}
 	p2 := protodesc.ToFileDescriptorProto(fd2)
-	c.Check(proto.Equal(p1, p2), "second round trip is not the identity: "+protoDiff(p1, p2), in, "")
+	chk(c, proto.Equal(p1, p2), "second round trip is not the identity: "+protoDiff(p1, p2), in, "")
 	s1, s2 := snapshotFile(fd), snapshotFile(fd2)
 	if s1 != s2 {
-		c.Check(false, "accessor snapshot of NewFile(ToProto(d)) differs from d: "+firstDiff(s1, s2), in, classifySnapshots(p, s1, s2))
+		chk(c, false, "accessor snapshot of NewFile(ToProto(d)) differs from d: "+firstDiff(s1, s2), in, classifySnapshots(p, s1, s2))
 	}
 	if a != nil && c.Rand.Intn(3) == 0 {
 		c.Sample(map[string]any{"path": p.GetName(), "syntax": p.GetSyntax(), "edition": p.GetEdition().String(), "messages": len(p.MessageType), "bytes": len(in.FDP) / 2})
